@@ -181,7 +181,9 @@ static int run_one (OrcProgram * p, const char *path, int native, const VRunCfg 
   return 0;
 }
 
-static void explore (OrcProgram * p, const char *text, long idx)
+/* runs p; the element counts, row counts and with them the entitlement come from `shape` (p itself, or the program p
+ * was rebuilt from) */
+static void explore_as (OrcProgram * p, OrcProgram * shape, const char *text, long idx)
 {
   int ti, i;
   VShape sh0;
@@ -208,14 +210,14 @@ static void explore (OrcProgram * p, const char *text, long idx)
     V = regsize / sz;
     N = (thorough ? 4 : 2) * V * 2 + 3;
     if (!native) N = 35;
-    for (n = (p->constant_n > 0 ? p->constant_n : 0); n <= (p->constant_n > 0 ? p->constant_n : N) && !bad; n++) {
+    for (n = (shape->constant_n > 0 ? shape->constant_n : 0); n <= (shape->constant_n > 0 ? shape->constant_n : N) && !bad; n++) {
       for (pl = 0; pl < 2 && !bad; pl++) {
         VRunCfg c;
         int mi, pc;
-        for (mi = 0; mi < (p->is_2d && p->constant_m <= 0 ? 3 : 1) && !bad; mi++) for (pc = 0; pc < ((n % 7) == 3 ? 5 : 1) && !bad; pc++) {
+        for (mi = 0; mi < (shape->is_2d && shape->constant_m <= 0 ? 3 : 1) && !bad; mi++) for (pc = 0; pc < ((n % 7) == 3 ? 5 : 1) && !bad; pc++) {
           memset (&c, 0, sizeof (c));
           c.n = n;
-          c.m = p->is_2d ? (p->constant_m > 0 ? p->constant_m : mi + 1) : 1;
+          c.m = shape->is_2d ? (shape->constant_m > 0 ? shape->constant_m : mi + 1) : 1;
           if (c.m > MAXROWS) continue;
           c.pchoice = (n + pc) % 5;
           bad = run_one (p, path, native, &c, pl, text);
@@ -232,6 +234,8 @@ static void explore (OrcProgram * p, const char *text, long idx)
   }
 }
 
+static void explore (OrcProgram * p, const char *text, long idx) { explore_as (p, p, text, idx); }
+
 static void on_prog (VProg * vp, void *user)
 {
   long idx = g_idx++;
@@ -241,6 +245,21 @@ static void on_prog (VProg * vp, void *user)
   vprog_text (vp, text, sizeof (text));
   p = vprog_build (vp);
   explore (p, text, idx);
+  /* the form in which generated wrappers carry a program: rebuilt from its bytecode.  Only for programs whose shape
+   * (2-D, constant n or m) the bytecode has to carry; the entitlement is that of the original program. */
+  if (p->is_2d || p->constant_n || p->constant_m) {
+    OrcBytecode *bc = orc_bytecode_from_program (p);
+    OrcProgram *q = orc_program_new_from_static_bytecode (bc->bytecode);
+    if (q) {
+      char t2[4200];
+      snprintf (t2, sizeof (t2), "%s[rebuilt from bytecode]", text);
+      /* the rebuilt program is run on the shapes of the original: what it may touch is defined by the program the
+       * user wrote */
+      explore_as (q, p, t2, idx);
+      orc_program_free (q);
+    }
+    orc_bytecode_free (bc);
+  }
   orc_program_free (p);
 }
 
